@@ -66,6 +66,13 @@ func runC35(c *an.Ctx) {
 				}
 			}
 			c.Check(okOps, "same-subject|addEIPTxPool|new-vs-old-price", "the comparison is new.GasPrice > a bump of the old transaction's GasPrice", c.P.Rel(add.Pos()), "operands changed")
+			// the bumped threshold is never below the old price: old*a/b with constants a >= b (multiply first), or old + something
+			okMono, form := false, "?"
+			for _, val := range an.FindValues(add, price.MatchValue) {
+				b := val.(*ssa.BinOp)
+				okMono, form = thresholdAtLeastOld(b.Y)
+			}
+			c.Check(okMono, "monotone|addEIPTxPool|threshold-not-below-old-price", "the price a replacement must exceed is at least the pooled transaction's price (old*a/b with a >= b, multiplied before dividing, or old plus a non-negative bump) — otherwise a cheaper transaction can evict a dearer one", c.P.Rel(add.Pos()), "threshold has the form "+form+", which can be below the old price (integer division truncates before the multiplication)")
 			okNonce := false
 			for _, k := range an.CallsTo(add, get) {
 				a := argsNoRecv(k.Common())[0]
@@ -274,4 +281,53 @@ func sliceHolds(a ssa.Value, v ssa.Value) bool {
 		}
 	}
 	return false
+}
+
+// thresholdAtLeastOld recognises threshold expressions that are >= the old gas
+// price for every value (ignoring uint64 overflow): (old * a) / b with
+// constants a >= b > 0, old + x for unsigned x, or old itself.
+func thresholdAtLeastOld(v ssa.Value) (bool, string) {
+	isOld := func(x ssa.Value) bool {
+		f := fieldOfLoad(x)
+		return f != nil && f.Name() == "GasPrice"
+	}
+	konst := func(x ssa.Value) (int64, bool) {
+		k, ok := x.(*ssa.Const)
+		if !ok || k.Value == nil {
+			return 0, false
+		}
+		var n int64
+		if _, err := fmt.Sscanf(k.Value.ExactString(), "%d", &n); err != nil {
+			return 0, false
+		}
+		return n, true
+	}
+	if isOld(v) {
+		return true, "old"
+	}
+	b, ok := v.(*ssa.BinOp)
+	if !ok {
+		return false, "a computed value"
+	}
+	switch b.Op {
+	case token.QUO:
+		d, okD := konst(b.Y)
+		if m, isM := b.X.(*ssa.BinOp); isM && m.Op == token.MUL && okD && d > 0 {
+			if a, okA := konst(m.Y); okA && isOld(m.X) {
+				return a >= d, fmt.Sprintf("old*%d/%d", a, d)
+			}
+			if a, okA := konst(m.X); okA && isOld(m.Y) {
+				return a >= d, fmt.Sprintf("%d*old/%d", a, d)
+			}
+		}
+		return false, "(...)/const"
+	case token.MUL:
+		// (old / b) * a: truncates first
+		return false, "(old/b)*a"
+	case token.ADD:
+		if isOld(b.X) || isOld(b.Y) {
+			return true, "old + bump"
+		}
+	}
+	return false, b.Op.String() + " expression"
 }
